@@ -147,6 +147,14 @@ pub fn kitchen_sink_frag(variant: u32) -> Movie {
         let mut empty = traf(1, BaseMode::DefaultBaseIsMoof, false, false, vec![]);
         empty.has_trun = false;
         m.frags[1].trafs.push(empty);
+        // a run without any per-sample field (sizes and durations from the tfhd defaults)
+        let mut bare = traf(1, BaseMode::DefaultBaseIsMoof, false, false, vec![s(4, 33, 0), s(4, 33, 0)]);
+        bare.trun_size = false;
+        bare.trun_cts = false;
+        bare.trun_flags = false;
+        bare.trun_first_flags = None;
+        bare.tfhd_size = Some(4);
+        m.frags.push(Fragment { seq: 9, mdat_first: false, trafs: vec![bare] });
         let mut cts_only = traf(0, BaseMode::DefaultBaseIsMoof, false, true, vec![s(2, 1, 5), s(2, 1, 6), s(2, 1, 7)]);
         cts_only.trun_size = false;
         cts_only.trun_cts = true;
@@ -168,6 +176,29 @@ pub fn bases(ctx: &Ctx, n_generated: usize) -> Vec<Base> {
     }
     for v in 3..7 {
         out.push(mk_base(format!("sinkfrag{}", v), build(&kitchen_sink_frag(v)).bytes, false));
+    }
+    // metadata items in unusual-but-legal encodings (empty / short / long binary year, empty text,
+    // image type on a text item, ...)
+    for v in 0..3u32 {
+        let mut m = kitchen_sink(2);
+        let day: (u32, Vec<u8>) = match v {
+            0 => (0, vec![]),
+            1 => (0, vec![7]),
+            _ => (0, vec![0, 0, 7, 216, 1, 2]),
+        };
+        m.meta = Some(Meta {
+            handler: cc("mdir"),
+            quicktime: v == 1,
+            items: Some(vec![
+                MetaItem { typ: [0xa9, b'n', b'a', b'm'], type_code: if v == 2 { 13 } else { 1 }, payload: vec![], pre: vec![], post: vec![] },
+                MetaItem { typ: [0xa9, b'd', b'a', b'y'], type_code: day.0, payload: day.1, pre: vec![], post: vec![] },
+                MetaItem { typ: cc("covr"), type_code: 0, payload: vec![], pre: vec![], post: vec![] },
+                MetaItem { typ: cc("desc"), type_code: 21, payload: vec![0xff, 0xfe], pre: vec![], post: vec![] },
+            ]),
+            hdlr_last: v == 0,
+            udta_extra: vec![],
+        });
+        out.push(mk_base(format!("sinkmeta{}", v), build(&m).bytes, false));
     }
     // media segment only
     {
@@ -361,6 +392,36 @@ pub fn run_enumerated(ctx: &mut Ctx, bases: &[Base], weight: &dyn Fn(FieldKind) 
     }
     ctx.extra.insert("pairwise_space".into(), serde_json::json!(idx));
     ctx.extra.insert("pairwise_stride".into(), serde_json::json!(stride));
+    // ---- pairs across boxes: offsets / lengths / counts / times of different boxes together ----
+    ctx.stage("cross-box");
+    let stride = ctx.pick(16u64, 2u64);
+    let mut idx = 0u64;
+    for (bi, b) in bases.iter().enumerate() {
+        let fs: Vec<&Field> = b.fields.iter().filter(|f| matches!(f.kind, FieldKind::Offset | FieldKind::Length | FieldKind::Count | FieldKind::Time) && weight(f.kind) != 0).collect();
+        for i in 0..fs.len() {
+            for j in i + 1..fs.len() {
+                let (fa, fb) = (fs[i], fs[j]);
+                if fa.box_end == fb.box_end || (fa.off + fa.width > fb.off && fb.off + fb.width > fa.off) {
+                    continue; // same box: covered by the pairwise stage
+                }
+                for va in [0u64, u64::MAX, 0x7fff_ffff, b.bytes.len() as u64] {
+                    for vb in [0u64, u64::MAX, 0x7fff_ffff, b.bytes.len() as u64 + 1] {
+                        let my = idx;
+                        idx += 1;
+                        if my % stride != 0 || !ctx.enter(my / stride) {
+                            continue;
+                        }
+                        let mask = |f: &Field, v: u64| if f.width >= 8 { v } else { v & ((1u64 << (8 * f.width)) - 1) };
+                        let mut bytes = b.bytes.clone();
+                        write_field(&mut bytes, fa, mask(fa, va));
+                        write_field(&mut bytes, fb, mask(fb, vb));
+                        each(ctx, &AdvCase { bytes, desc: format!("{}: {} := {:#x}, {} := {:#x}", b.name, fname(fa), mask(fa, va), fname(fb), mask(fb, vb)), touched: vec![fa.kind, fb.kind], base: bi });
+                    }
+                }
+            }
+        }
+    }
+    ctx.extra.insert("cross_box_space".into(), serde_json::json!(idx));
     // ---- box-tree surgery ----
     ctx.stage("surgery");
     let mut idx = 0u64;
